@@ -284,6 +284,7 @@ def ecef2geodetic(x: float, y: float, z: float, a: float = EARTH_EQUATOR_RADIUS,
     delta = 1e-8
     lat_old = 0
     lat = np.arctan2(z, (1-e2)*p)
+    N = a / np.sqrt(1 - e2 * np.sin(lat)**2)        # Needed if the first guess is already the solution (equator)
     while abs(lat_old - lat) > delta:
         sin_lat = np.sin(lat)
         N = a / np.sqrt(1 - e2 * sin_lat**2)    # Radius of curvature in the vertical prime
